@@ -4,6 +4,7 @@
   for an indefinite one.
 -/
 import Minicbor.Iter
+import Minicbor.Lemmas.TotalTy
 
 namespace Minicbor.IterThm
 open Minicbor
@@ -252,6 +253,34 @@ theorem all_is_drain (m : Dec α) : ∀ (fuel : Nat) (s : IterSt),
         | panic => trivial
       | error e => exact ⟨[], rfl, rfl⟩
       | panic => trivial
+
+/-- **an iterator never moves backwards and never leaves the input**: whatever `next` answers — an item, an error, the end — the decoder
+    stands at a suffix of where it stood (for every element decoder with that property: `decodeT_suffix` gives it for all built-in types). -/
+theorem iterNext_suffix (m : Dec α) (hm : Dec.Suffix m) (s : IterSt) : (iterNext m s).2.rest <:+ s.rest := by
+  have run : ∀ l bs, (iterRun m l bs).2.rest <:+ bs := by
+    intro l bs
+    unfold iterRun
+    cases h : m bs with
+    | ok a r => exact (hm bs).1 a r h
+    | err e r => exact (hm bs).2 e r h
+    | panic => exact List.suffix_refl _
+  unfold iterNext
+  cases hl : s.left with
+  | none =>
+    cases hr : s.rest with
+    | nil => simp only [hr]; exact List.suffix_refl _
+    | cons b r =>
+      simp only []
+      split
+      · exact List.suffix_cons b r
+      · rw [← hr]; exact run none s.rest
+  | some n =>
+    cases n with
+    | zero => exact List.suffix_refl _
+    | succ k => exact run (some k) s.rest
+
+theorem iterNext_suffix_builtin (t : Ty) (s : IterSt) : (iterNext (decodeT t) s).2.rest <:+ s.rest :=
+  iterNext_suffix _ (Dec.decodeT_suffix t) s
 
 /-- a definite iterator answers at most as often as its declared length says, errors included, however the elements fail: after
     `left` answers it is exhausted (`allx` = `next` until `None`, carrying on after failed elements). -/
